@@ -228,7 +228,7 @@ const SECS: [u32; 10] = [0, 1, 59, 60, 3_599, 3_600, 43_200, 86_340, 86_398, 86_
 
 fn gen_time(c: &mut Ctx) -> NaiveTime {
     let secs = if c.rng.chance(1, 2) { *c.rng.pick(&SECS) } else { c.rng.below(86_400) as u32 };
-    let frac = if c.rng.chance(1, 2) { *c.rng.pick(&FRACS) } else { c.rng.below(1_000_000_000) as u32 };
+    let frac = if c.rng.chance(1, 2) { *c.rng.pick(&FRACS) } else { c.rng.nanos() };
     match c.rng.below(32) {
         // a leap second where the constructors allow it
         0 | 1 => mk_time(secs / 60 * 60 + 59, frac + 1_000_000_000),
@@ -287,7 +287,7 @@ fn gen_ndt(c: &mut Ctx, special: &[(i64, u32)]) -> NaiveDateTime {
             // within a few seconds of the nanosecond window ends / the epoch / the range ends
             let base = *c.rng.pick(&[-9_223_372_037i64, 9_223_372_036, 0, special[0].0 + 3, special[5].0 - 3]);
             let s = base + c.rng.range(-3, 3);
-            let n = if c.rng.chance(1, 2) { *c.rng.pick(&FRACS) } else { c.rng.below(1_000_000_000) as u32 };
+            let n = if c.rng.chance(1, 2) { *c.rng.pick(&FRACS) } else { c.rng.nanos() };
             DateTime::from_timestamp(s, n).map(|d| d.naive_utc()).unwrap_or(NaiveDateTime::MIN)
         }
         // inside the 64-bit nanosecond window (1677-09-21 … 2262-04-11)
